@@ -18,8 +18,6 @@ Proof.
   - injection H as -> ->. rewrite Z.eqb_refl. cbn. apply IH. reflexivity.
 Qed.
 
-Definition nix_header (v : list Z) (i : idst) : header :=
-  {| h_format := Some file_format; h_version := Some v; h_id := i |}.
 
 Lemma fmt_ok : negb (opt_eqb streq (Some file_format) (Some file_format)) = false.
 Proof. cbn [opt_eqb]. rewrite streq_refl. reflexivity. Qed.
